@@ -114,6 +114,15 @@ nothing but padding, for every record -/
 theorem entry_only_padding_cut (r : Raw) : ∃ k, r.name = trimNul r.name ++ List.replicate k 0 :=
   trimNul_prefix r.name
 
+/-- **the whole name for a kernel-built record**: the record for entry `nm` (any length ≥ 1, not ending in NUL)
+carries `padName nm`; the event is named exactly stored path, separator, `nm` -/
+theorem kernel_record_name (w : Watch) (r : Raw) (nm : List Nat) (hnm : nm ≠ []) (h0 : nm.getLast? ≠ some 0)
+    (hr : r.name = padName nm) (hl : r.len = (padName nm).length) :
+    nameOf w r = w.path ++ slash :: nm := by
+  rw [no_target_leak]
+  have hpos : r.len > 0 := by rw [hl, padName_length nm hnm]; omega
+  rw [if_pos hpos, hr, trimNul_padName nm h0]
+
 /-- non-vacuity: a relative argument with `..` and `//`, an entry name, a relative event name -/
 example : nameOf ⟨1, 0, clean [46, 46, 47, 47, 97], false⟩ ⟨1, 0x100, 0, 16, [98, 0, 0]⟩ = [46, 46, 47, 97, 47, 98] := by decide
 
